@@ -44,7 +44,82 @@ def make_package(seed):
             size = 0 if nm.endswith("/") else rng.choice([0, 1, 10, 1000, 70000])
             parts.append({"name": nm, "hex": bytes(rng.randrange(256) for _ in range(min(size, 2000))).hex() * (35 if size > 2000 else 1)})
     preexisting_map(rng, parts)
-    return D.build_docx(parts, compression=rng.choice([None, "deflate", "mixed"]))
+    data = D.build_docx(parts, compression=rng.choice([None, "deflate", "mixed"]))
+    return with_repeated_members(rng, data)
+
+
+def variant_of(rng, name, data):
+    """other contents for a member called `name` that is a legal stand-in for `data`: the same bytes, or (relationships /
+    content types) the same XML with one more entry, or (style map) another map, or (a part nothing refers to) other bytes"""
+    r = rng.random()
+    if name == STYLE:
+        return rng.choice(["", "p => h4", "p.Dup%d => h2:fresh" % rng.randint(0, 9), "r => em\n" * rng.choice([1, 200]), "é => ü"]).encode("utf-8")
+    if name in (RELS, TYPES) and r < 0.6:
+        extra = (b'<Relationship xmlns="http://schemas.openxmlformats.org/package/2006/relationships" Id="rDup%d" Type="http://example.com/dup" Target="dup.xml" />'
+                 if name == RELS else
+                 b'<Default xmlns="http://schemas.openxmlformats.org/package/2006/content-types" Extension="dup%d" ContentType="application/x-dup" />') % rng.randint(0, 99)
+        k = data.rfind(b"</")
+        if k > 0 and not data.startswith((b"\xff\xfe", b"\xfe\xff")) and b"\x00" not in data[:8]:
+            try:
+                cand = data[:k] + extra + data[k:]
+                ElementTree.fromstring(cand)
+                return cand
+            except ElementTree.ParseError:
+                pass
+        return data
+    if name.startswith(("customXml/", "docProps/thumb", "empty/", "word/media/extra")) and r < 0.7:
+        return bytes(rng.randrange(256) for _ in range(rng.choice([0, 1, 30, 3000])))
+    return data
+
+
+def with_repeated_members(rng, data):
+    """a zip archive may hold one member name several times; every reader (zipfile included) uses the LAST one.  Such packages are
+    what a tool leaves behind that patches a .docx by appending (`ZipFile(path, "a").writestr(name, ...)`).  About a third of the
+    start packages get repeated names: of the three parts an embed rewrites (style map, relationships, content types) and of parts
+    it must carry over.  Two layouts: `append` (the original member stays where it is and is dead, a variant is appended and
+    is the effective one) and `stale-first` (a dead variant is put in front of / far before the effective original)."""
+    if rng.random() < 0.65:
+        return data
+    import warnings
+    with zipfile.ZipFile(io.BytesIO(data)) as z:
+        infos = z.infolist()
+        content = [z.read(i) for i in infos]
+    names = [i.filename for i in infos]
+    rewritten = [n for n in (STYLE, RELS, TYPES) if n in names or n == STYLE]
+    chosen = [n for n in rewritten if rng.random() < 0.5] or [rng.choice(rewritten)]
+    if rng.random() < 0.6:
+        chosen += rng.sample(names, min(len(names), rng.randint(1, 2)))
+    chosen = list(dict.fromkeys(chosen))
+    layout = rng.choice(["append", "append", "stale-first"])
+    comp = lambda: rng.choice([zipfile.ZIP_STORED, zipfile.ZIP_DEFLATED])
+    buf = io.BytesIO()
+    with warnings.catch_warnings():
+        warnings.simplefilter("ignore")         # zipfile warns about "Duplicate name"
+        with zipfile.ZipFile(buf, "w") as z:
+            tail = []
+            for info, body in zip(infos, content):
+                n = info.filename
+                if n in chosen and layout == "stale-first" and not n.endswith("/"):
+                    for _ in range(rng.choice([1, 1, 2])):
+                        z.writestr(zipfile.ZipInfo(n), variant_of(rng, n, body) if n not in (RELS, TYPES) or rng.random() < 0.5 else b"<stale", compress_type=comp())
+                    if rng.random() < 0.5:
+                        tail.append((info, body))
+                        continue
+                z.writestr(info, body)
+            for info, body in tail:
+                z.writestr(info, body)
+            if layout == "append":
+                for n in chosen:
+                    if n.endswith("/"):
+                        continue
+                    body = content[names.index(n)] if n in names else b"p => h6"
+                    for _ in range(rng.choice([1, 1, 1, 2])):
+                        body = variant_of(rng, n, body)
+                        z.writestr(zipfile.ZipInfo(n), body, compress_type=comp())
+            elif STYLE in chosen and STYLE not in names:
+                z.writestr(zipfile.ZipInfo(STYLE), b"p => h6", compress_type=comp())
+                z.writestr(zipfile.ZipInfo(STYLE), variant_of(rng, STYLE, b""), compress_type=comp())
+    return buf.getvalue()
 
 
 def preexisting_map(rng, parts):
@@ -115,6 +190,12 @@ class Faulty:
         self.f, self.fail_at, self.n = f, fail_at, 0
         self.ops = []
         self.first_write_done = False
+        self.truncate_done = False          # the closing truncate has RETURNED: the write phase is over, the file is completely rewritten
+
+    def in_final_copy(self):
+        """the fault fell inside the final in-place copy: after the first data bytes were written and before the closing truncate
+        returned (the truncate itself included).  A fault in an operation AFTER the completed rewrite is not that."""
+        return self.first_write_done and not self.truncate_done
 
     def _op(self, name):
         self.n += 1
@@ -142,7 +223,9 @@ class Faulty:
 
     def truncate(self, *a):
         self._op("truncate")
-        return self.f.truncate(*a)
+        r = self.f.truncate(*a)
+        self.truncate_done = True
+        return r
 
     def flush(self):
         return self.f.flush()
@@ -229,7 +312,8 @@ def run(out, tier, seed, model_ok):
         hist = with_edge_maps(rng, hist)
         had_map = STYLE in read_zip(data0)[0]
         ft = out.extra.setdefault("c12_features", {})
-        for key, hit in (("package_already_has_map", had_map), ("history_with_empty_map", "" in hist), ("empty_map_first", hist[0] == ""), ("empty_map_last", hist[-1] == ""),
+        nl0 = read_zip(data0)[1]
+        for key, hit in (("package_with_repeated_member_names", len(nl0) != len(set(nl0))), ("package_already_has_map", had_map), ("history_with_empty_map", "" in hist), ("empty_map_first", hist[0] == ""), ("empty_map_last", hist[-1] == ""),
                          ("empty_map_inside", "" in hist[1:-1]), ("empty_map_after_nonempty", any(a and not b for a, b in zip(hist, hist[1:])))):
             ft[key] = ft.get(key, 0) + (1 if hit else 0)
         on_disk = rng.random() < 0.5
@@ -312,8 +396,11 @@ def run(out, tier, seed, model_ok):
                 out.count(key="fault-%d-%d-%d" % (seed, i, k), nontrivial=True)
                 if failed and f.f.getvalue() != data0:
                     case = {"kind": "embed-fault", "docx_hex": data0.hex() if len(data0) < 30000 else None, "style_map": s, "fail_at": k, "ops": f.ops, "seed": seed * 1000003 + i}
-                    sig = {"kind": "embed-fault", "when": "after-first-write"} if f.first_write_done else None
-                    payload = dict(property="C12", kind="failing-input", what="embedding failed at file operation %d (%s) but the file was modified" % (k, f.ops[-1]), case=case,
+                    # K1 is about a fault INSIDE the final copy (first data write .. closing truncate); an exception that comes out of the
+                    # public call after the rewrite is complete ("if embedding fails, nothing has been written") is not K1
+                    sig = {"kind": "embed-fault", "when": "after-first-write"} if f.in_final_copy() else None
+                    payload = dict(property="C12", kind="failing-input", what="embedding failed at file operation %d of %d (%s%s) but the file was modified" % (
+                        k, total, f.ops[-1], ", after the rewrite of the file had been completed" if f.truncate_done else ""), case=case,
                                    how_to_rerun="./check C12 --replay <this file>")
                     if sig:
                         payload["signature"] = sig
@@ -348,8 +435,10 @@ def run(out, tier, seed, model_ok):
     out.rule = ("packages with a relationships and a content-types part plus arbitrary other parts (binary, empty, directory entries, 70 KB), histories of 1-%d embeds of "
                 "Unicode style maps whose lengths grow and shrink, in memory and on r+b disk files; after each embed: round trip, valid zip with the end-of-central-directory "
                 "record at the very end (no stale bytes), all other parts byte-identical, all entries kept and exactly one style-map entry, parts equal to the Lean "
-                "addOrUpdate/updateZip/utf8 model, conversion equals conversion with style_map=s; plus an I/O error injected at every file operation of the call and an "
-                "unencodable string; non-trivial = the archive shrank" % (6 if tier == "quick" else 20))
+                "addOrUpdate/updateZip/utf8 model, conversion equals conversion with style_map=s; about a third of the start packages hold REPEATED member names (style map, "
+                "relationships, content types and other parts; appended variants or stale copies in front - readers use the last one); plus an I/O error injected at every "
+                "file operation of the public call, those after the completed rewrite included (exception => file unchanged; only a fault between the first data write and "
+                "the return of the closing truncate is the known finding K1), and an unencodable string; non-trivial = the archive shrank" % (6 if tier == "quick" else 20))
     out.sample({"history_lengths": [len(x) for x in hist]})
 
 
@@ -381,6 +470,6 @@ def replay(out, payload, model_ok):
         except Exception:
             if f.f.getvalue() != data0:
                 p = dict(property="C12", kind="failing-input", what="embedding failed but the file was modified", case=case)
-                if f.first_write_done:
+                if f.in_final_copy():
                     p["signature"] = {"kind": "embed-fault", "when": "after-first-write"}
                 out.violations.append(("input", p))
